@@ -106,4 +106,10 @@ Definition valid (c : tcase) : Prop :=
   t_nv c = ncurrent /\ (1 <= max_bs (t_limits c))%N /\ kind_consistent c /\ t_wrap c <> Some 65535%N.
 
 Definition run_model := run_transfer_case.
-Definition entry := tftp_entry holds proj_negotiation.
+(* [valid] as a boolean (C07.Props.C07_validb_valid) *)
+Definition validb (c : tcase) : bool :=
+  negb (blksize_drop_over_max (t_nv c)) && negb (tsize_ignores_pos (t_nv c)) &&
+  (1 <=? max_bs (t_limits c))%N &&
+  match size_known (t_kind c) with Some sz => (sz =? N.of_nat (List.length (t_content c)))%N | None => true end &&
+  match t_wrap c with Some w => negb (w =? 65535)%N | None => true end.
+Definition entry := tftp_entry (fun c => Monitor.validb c && validb c) holds proj_negotiation.
